@@ -3,7 +3,7 @@
 From Coq Require Import List Bool Lia ZifyBool ZifyN.
 From TS Require Import Model.Str Model.Outcome Model.Unicode Model.Rename Model.Types Model.Parse Model.Lang.Common Model.Lang.Decl
                        Model.Lang.Go.
-From TS Require Import Spec.C16Spec Spec.C02Spec Proofs.C16 Proofs.BackCommon Proofs.C02_Back.
+From TS Require Import Spec.C16Spec Spec.C02Spec Proofs.C16 Proofs.BackCommon Proofs.C02_Back Proofs.GoAcronyms.
 Import ListNotations.
 Local Open Scope N_scope.
 Local Notation length := List.length (only parsing).
@@ -155,3 +155,283 @@ Proof.
   intros H Hd Ha. destruct (C02_go_core custom e s ds s' H Hd) as [Hc Hn]. unfold good_C02. now rewrite Hc, (Hn Ha).
 Qed.
 End GO.
+
+(* ======================================================================== Go, ANY (ASCII) acronym list *)
+(* Proofs/GoAcronyms.v: on ASCII input the rewriting of go.rs:579 only changes the case of letters, so two
+   identifiers that get one constant name are equal up to ASCII case - the class C02-go-acronym-case-collision.
+   (The class stays an over-approximation: UserId / UserID collide under ["ID"], not under ["URL"].) *)
+Section GOACR.
+Variable uc : unicode.
+Variable cfg : go_config.
+Hypothesis Huc : unicode_ok uc.
+Hypothesis Hacr : Forall ga_ascii (go_uppercase_acronyms cfg).
+
+Local Notation CONV := (go_convert_acronyms_to_uppercase uc (go_uppercase_acronyms cfg)).
+
+Lemma c02_go_acr_conv name s r s' : go_acronyms_to_uppercase uc cfg name s = Ok (r, s') -> CONV name = Ok r.
+Proof. unfold go_acronyms_to_uppercase, go_lift. destruct (CONV name); try discriminate. now intros [= -> _]. Qed.
+
+Lemma c02_conv_variant_ascii a : conv_variant a = true -> ga_ascii a.
+Proof.
+  destruct a as [|c r]; [discriminate|]. cbn [conv_variant]. intros H. apply andb_true_iff in H as [Hc Hr].
+  constructor; [unfold is_aupper in Hc; lia|]. apply Forall_forall. intros x Hx.
+  rewrite forallb_forall in Hr. apply camel_char_ascii. now apply Hr.
+Qed.
+
+Lemma c02_go_unit_variant_acr sh v s t s' : go_unit_variant_of uc cfg sh v s = Ok (t, s') ->
+  exists vsh en vn, v = VUnit vsh /\ t = (vcomments vsh, en ++ vn, renamed (vid vsh)) /\
+    CONV (original (eid sh)) = Ok en /\ CONV (original (vid vsh)) = Ok vn.
+Proof.
+  destruct v as [vsh| |]; cbn [go_unit_variant_of]; try discriminate. intros H.
+  apply mbind_ok in H as (en & s1 & He & H). apply mbind_ok in H as (vn & s2 & Hv & H).
+  unfold ret in H. injection H as <- _. exists vsh, en, vn. repeat split; eapply c02_go_acr_conv; eassumption.
+Qed.
+
+Lemma c02_go_variant_acr sh custom sn tag v s gv s' : go_variant_of uc cfg sh custom sn tag v s = Ok (gv, s') ->
+  exists tp vn, vd_name (go_obs_variant gv) = (sn ++ tp ++ lit "Variant") ++ vn /\
+    CONV (to_pascal_case tag) = Ok tp /\ CONV (original (vid (variant_shared v))) = Ok vn.
+Proof.
+  unfold go_variant_of. intros H.
+  apply mbind_ok in H as (vname & s1 & Hn & H). apply mbind_ok in H as (vt & s2 & _ & H).
+  apply mbind_ok in H as (tp & s3 & Htp & H). apply mbind_ok in H as (content & s4 & _ & H).
+  unfold ret in H. injection H as <- _. cbn [go_obs_variant vd_name gv_const].
+  exists tp, vname. split; [now rewrite <- !app_assoc|]. split; eapply c02_go_acr_conv; eassumption.
+Qed.
+
+(* names built as  <one prefix> ++ convert(identifier)  are pairwise different when no two identifiers are
+   equal up to ASCII case *)
+Lemma c02_go_distinct_acr (R : str -> str -> Prop) idents names :
+  Forall2 R idents names ->
+  (forall a na, R a na -> exists pre vn, na = pre ++ vn /\ CONV a = Ok vn /\
+                                        forall b nb, R b nb -> exists vn', nb = pre ++ vn' /\ CONV b = Ok vn') ->
+  forallb conv_variant idents = true ->
+  c02_has_pair c02_upper_eq idents = false -> c02_distinct names = true.
+Proof.
+  intros HF HR Hconv Hp. apply (c02_distinct_rel c02_upper_eq R idents names HF); [|exact Hp].
+  intros a b na nb Ha Hb Ra Rb E. destruct (HR a na Ra) as (pre & vn & -> & Ca & Hall).
+  destruct (Hall b nb Rb) as (vn' & -> & Cb). apply app_inv_head in E. subst vn'.
+  rewrite forallb_forall in Hconv. unfold c02_upper_eq.
+  rewrite (ga_convert_collide uc Huc _ Hacr a b vn (c02_conv_variant_ascii a (Hconv a Ha)) (c02_conv_variant_ascii b (Hconv b Hb)) Ca Cb).
+  apply str_eqb_refl.
+Qed.
+
+Theorem C02_go_cases custom e s ds s' : go_decl_of uc cfg custom (ItEnum e) s = Ok (ds, s') ->
+  dom_C02_back (c02_expect_ir e) = true ->
+  c02_has_pair c02_upper_eq (c02_idents (c02_expect_ir e)) = false ->
+  c02_good_cases (flat_map go_obs ds) = true.
+Proof.
+  cbn [go_decl_of]. unfold go_enum_decls_of. intros H Hdom Hpair.
+  apply mbind_ok in H as (anon & s1 & Ha & H).
+  pose proof (c02_go_anon_plain _ _ _ _ _ _ Ha) as Hplain.
+  pose proof (c02_dom_back_parts _ Hdom) as (Hconv & _).
+  destruct e as [sh|tag content sh]; cbn [enum_shared c02_expect_ir c02_idents] in *.
+  - apply mbind_ok in H as (en & s2 & Hen & H). apply mbind_ok in H as (vs & s3 & Hv & H).
+    unfold ret in H. injection H as <- _. rewrite flat_map_app. cbn [flat_map go_obs]. rewrite app_nil_r.
+    apply (mmapM_Forall2 _ (fun v t => exists vsh en vn, v = VUnit vsh /\ t = (vcomments vsh, en ++ vn, renamed (vid vsh)) /\
+                                        CONV (original (eid sh)) = Ok en /\ CONV (original (vid vsh)) = Ok vn)) in Hv.
+    2:{ intros v s0 t s0' Hx. exact (c02_go_unit_variant_acr _ _ _ _ _ Hx). }
+    rewrite c02_good_cases_app, (c02_plain_cases _ Hplain). apply c02_good_cases_one. cbn [d_variants]. rewrite map_map.
+    set (R := fun a na => exists en vn, na = en ++ vn /\ CONV (original (eid sh)) = Ok en /\ CONV a = Ok vn).
+    apply (c02_go_distinct_acr R (map (fun v => original (vid (variant_shared v))) (evariants sh))); [| |exact Hconv|exact Hpair].
+    + eapply c02_Forall2_maps; [exact Hv|]. intros v t (vsh & en' & vn & -> & -> & Ce & Cv). exists en', vn. auto.
+    + intros a na (en' & vn & -> & Ce & Cv). exists en', vn. repeat split; [exact Cv|].
+      intros b nb (en2 & vn2 & -> & Ce2 & Cv2). rewrite Ce in Ce2. injection Ce2 as <-. exists vn2. auto.
+  - apply mbind_ok in H as (sn & s2 & _ & H). apply mbind_ok in H as (cf & s3 & _ & H).
+    apply mbind_ok in H as (tf & s4 & _ & H). apply mbind_ok in H as (short & s5 & _ & H).
+    apply mbind_ok in H as (tacr & s6 & _ & H). apply mbind_ok in H as (vs & s7 & Hv & H).
+    unfold ret in H. injection H as <- _. rewrite flat_map_app. cbn [flat_map go_obs]. rewrite app_nil_r.
+    apply (mmapM_Forall2 _ (fun v gv => exists tp vn, vd_name (go_obs_variant gv) = (sn ++ tp ++ lit "Variant") ++ vn /\
+                                          CONV (to_pascal_case tag) = Ok tp /\ CONV (original (vid (variant_shared v))) = Ok vn)) in Hv.
+    2:{ intros v s0 gv s0' Hx. exact (c02_go_variant_acr _ _ _ _ _ _ _ _ Hx). }
+    match goal with |- context [?pre ++ [?h; ?x]] => set (hd := h); set (d := x) end.
+    change (flat_map go_obs anon ++ [hd; d]) with (flat_map go_obs anon ++ [hd] ++ [d]). rewrite app_assoc.
+    assert (Hplain' : forallb c02_plain (flat_map go_obs anon ++ [hd]) = true).
+    { rewrite forallb_app, Hplain. reflexivity. }
+    rewrite c02_good_cases_app, (c02_plain_cases _ Hplain'). apply c02_good_cases_one. subst d. cbn [d_variants gt_variants]. rewrite map_map.
+    set (R := fun a na => exists tp vn, na = (sn ++ tp ++ lit "Variant") ++ vn /\ CONV (to_pascal_case tag) = Ok tp /\ CONV a = Ok vn).
+    apply (c02_go_distinct_acr R (map (fun v => original (vid (variant_shared v))) (evariants sh))); [| |exact Hconv|exact Hpair].
+    + eapply c02_Forall2_maps; [exact Hv|]. intros v gv (tp & vn & E & Ct & Cv). exists tp, vn. auto.
+    + intros a na (tp & vn & -> & Ct & Cv). exists (sn ++ tp ++ lit "Variant"), vn. repeat split; [exact Cv|].
+      intros b nb (tp2 & vn2 & -> & Ct2 & Cv2). rewrite Ct in Ct2. injection Ct2 as <-. exists vn2. auto.
+Qed.
+
+(* Go, EVERY configuration with ASCII uppercase_acronyms: outside the class (no acronyms configured, or no two
+   variant identifiers equal up to ASCII case) the enum is good *)
+Theorem C02_back_go custom e s ds s' : go_decl_of uc cfg custom (ItEnum e) s = Ok (ds, s') ->
+  dom_C02_back (c02_expect_ir e) = true ->
+  known_C02_back Go (match go_uppercase_acronyms cfg with [] => false | _ => true end) (c02_expect_ir e) = None ->
+  good_C02 Go (c02_expect_ir e) (flat_map go_obs ds) = true.
+Proof.
+  intros H Hd Hk. destruct (C02_go_core uc cfg custom e s ds s' H Hd) as [Hc Hn]. unfold good_C02. rewrite Hc. cbn [andb].
+  destruct (c02_has_pair c02_upper_eq (c02_idents (c02_expect_ir e))) eqn:Ep.
+  - apply Hn. clear Hacr. destruct (go_uppercase_acronyms cfg); [reflexivity|].
+    cbn [known_C02_back andb] in Hk. rewrite Ep in Hk. discriminate.
+  - exact (C02_go_cases custom e s ds s' H Hd Ep).
+Qed.
+End GOACR.
+
+(* the hypotheses are satisfiable with a real rewrite: acronym ID, variants UserId / UrlId *)
+Example C02_back_go_nonvacuous :
+  let cfg := {| go_package := lit "p"; go_type_mappings := []; go_uppercase_acronyms := [lit "ID"]; go_no_version_header := true;
+                go_no_pointer_slice := false; go_version := [] |} in
+  let mkv n := VUnit {| vid := {| original := lit n; renamed := lit n; via_serde_rename := false |}; vcomments := [] |} in
+  let e := EUnit {| eid := {| original := lit "E"; renamed := lit "E"; via_serde_rename := false |}; egenerics := []; ecomments := [];
+                    evariants := [mkv "UserId"%string; mkv "UrlId"%string]; edecs := []; erecursive := false; eredacted := false |} in
+  Forall ga_ascii (go_uppercase_acronyms cfg) /\ dom_C02_back (c02_expect_ir e) = true /\
+  known_C02_back Go true (c02_expect_ir e) = None /\
+  exists ds st, go_decl_of uc_exec cfg [] (ItEnum e) [] = Ok (ds, st) /\
+    map vd_name (flat_map d_variants (flat_map go_obs ds)) = [lit "EUserID"; lit "EUrlID"].
+Proof.
+  cbv zeta. split; [repeat constructor|]. split; [vm_compute; reflexivity|]. split; [vm_compute; reflexivity|].
+  eexists _, _. split; vm_compute; reflexivity.
+Qed.
+
+Theorem C02_back_go_b : forall uc, unicode_ok uc ->
+  forall cfg, forallb (forallb is_ascii) (go_uppercase_acronyms cfg) = true ->
+  forall custom e s ds s',
+  go_decl_of uc cfg custom (ItEnum e) s = Ok (ds, s') ->
+  dom_C02_back (c02_expect_ir e) = true ->
+  known_C02_back Go (match go_uppercase_acronyms cfg with [] => false | _ => true end) (c02_expect_ir e) = None ->
+  good_C02 Go (c02_expect_ir e) (flat_map go_obs ds) = true.
+Proof. intros uc Huc cfg Ha custom e s ds s'. apply C02_back_go; [exact Huc|now apply ga_ascii_list_b]. Qed.
+
+(* ======================================================================== the EXACT Go class *)
+(* the Spec's c02_go_rewrite is, definition by definition, the closed form of Proofs/GoAcronyms.v *)
+Lemma c02_go_rewrite_is_result acrs s : c02_go_rewrite acrs s = ga_result (map to_pascal_case acrs) s.
+Proof. reflexivity. Qed.
+
+Lemma c02_str_eqb_app_head pre x y : str_eqb (pre ++ x) (pre ++ y) = str_eqb x y.
+Proof. induction pre as [|c r IH]; cbn [app str_eqb]; [reflexivity|]. now rewrite N.eqb_refl. Qed.
+
+Lemma c02_has_pair_names (f : str -> str) pre l :
+  c02_has_pair str_eqb (map (fun a => pre ++ f a) l) = c02_has_pair (fun a b => str_eqb (f a) (f b)) l.
+Proof.
+  induction l as [|a r IH]; cbn [map c02_has_pair]; [reflexivity|]. rewrite IH. f_equal.
+  clear IH. induction r as [|b r IH]; cbn [map existsb]; [reflexivity|]. now rewrite IH, c02_str_eqb_app_head.
+Qed.
+
+Lemma c02_has_pair_mono (R Q : str -> str -> bool) l :
+  (forall a b, R a b = true -> Q a b = true) -> c02_has_pair R l = true -> c02_has_pair Q l = true.
+Proof.
+  intros H. induction l as [|a r IH]; cbn [c02_has_pair]; [discriminate|]. intros Hp.
+  apply orb_true_iff in Hp as [Hp|Hp]; apply orb_true_iff; [left|right; now apply IH].
+  apply existsb_exists in Hp as (b & Hb & Hab). apply existsb_exists. exists b. auto.
+Qed.
+
+Lemma c02_Forall2_and_l {A B} (R : A -> B -> Prop) (P : A -> Prop) l r :
+  Forall2 R l r -> Forall P l -> Forall2 (fun x y => R x y /\ P x) l r.
+Proof. induction 1; intros HP; [constructor|]. inversion HP; subst. constructor; auto. Qed.
+
+(* the exact class lies inside the over-approximation of known_C02_back (no hypothesis: the rewrite keeps the
+   upper-cased string by construction) *)
+Theorem C02_go_exact_in_class : forall acrs x c, known_C02_back_go acrs x = Some c -> known_C02_back Go true x = Some c.
+Proof.
+  intros acrs x c. unfold known_C02_back_go. cbn [known_C02_back andb].
+  destruct (c02_has_pair (c02_go_same_name acrs) (c02_idents x)) eqn:E; [|discriminate]. intros H.
+  assert (M : forall a b, c02_go_same_name acrs a b = true -> c02_upper_eq a b = true).
+  { intros a b Hab. unfold c02_go_same_name in Hab. apply str_eqb_eq in Hab. rewrite !c02_go_rewrite_is_result in Hab.
+    unfold c02_upper_eq, ga_result in *.
+    rewrite <- (ga_apply_upper (ga_cover (map to_pascal_case acrs) a) 0 a), <- (ga_apply_upper (ga_cover (map to_pascal_case acrs) b) 0 b).
+    rewrite Hab. apply str_eqb_refl. }
+  rewrite (c02_has_pair_mono (c02_go_same_name acrs) c02_upper_eq _ M E). exact H.
+Qed.
+
+Section GOEXACT.
+Variable uc : unicode.
+Variable cfg : go_config.
+Hypothesis Huc : unicode_ok uc.
+Hypothesis Hacr : Forall ga_ascii (go_uppercase_acronyms cfg).
+
+Local Notation CONV := (go_convert_acronyms_to_uppercase uc (go_uppercase_acronyms cfg)).
+Local Notation RW := (c02_go_rewrite (go_uppercase_acronyms cfg)).
+
+Lemma c02_go_conv_rw a vn : conv_variant a = true -> CONV a = Ok vn -> vn = RW a.
+Proof.
+  intros Ha H. rewrite (ga_convert uc Huc _ a Hacr (c02_conv_variant_ascii a Ha)) in H. injection H as <-.
+  symmetry. apply c02_go_rewrite_is_result.
+Qed.
+
+Lemma c02_go_cases_exact_core pre (d : decl) prefix idents :
+  forallb c02_plain pre = true ->
+  map vd_name (d_variants d) = map (fun a => prefix ++ RW a) idents ->
+  c02_good_cases (pre ++ [d]) = negb (c02_has_pair (c02_go_same_name (go_uppercase_acronyms cfg)) idents).
+Proof.
+  intros Hp Hn. rewrite c02_good_cases_app, (c02_plain_cases _ Hp). unfold c02_good_cases. cbn [forallb andb].
+  rewrite andb_true_r. unfold c02_distinct. rewrite Hn, c02_has_pair_names. reflexivity.
+Qed.
+
+(* the constants' names are pairwise different EXACTLY when no two identifiers are rewritten to one string *)
+Theorem C02_go_cases_exact custom e s ds s' : go_decl_of uc cfg custom (ItEnum e) s = Ok (ds, s') ->
+  dom_C02_back (c02_expect_ir e) = true ->
+  c02_good_cases (flat_map go_obs ds) =
+  negb (c02_has_pair (c02_go_same_name (go_uppercase_acronyms cfg)) (c02_idents (c02_expect_ir e))).
+Proof.
+  cbn [go_decl_of]. unfold go_enum_decls_of. intros H Hdom.
+  apply mbind_ok in H as (anon & s1 & Ha & H).
+  pose proof (c02_go_anon_plain _ _ _ _ _ _ Ha) as Hplain.
+  pose proof (c02_dom_back_parts _ Hdom) as (Hconv & _).
+  assert (Hcv : Forall (fun v => conv_variant (original (vid (variant_shared v))) = true) (evariants (enum_shared e))).
+  { destruct e; cbn [enum_shared c02_expect_ir c02_idents] in *; rewrite forallb_forall in Hconv; apply Forall_forall;
+      intros v Hv; apply Hconv; apply in_map_iff; eauto. }
+  destruct e as [sh|tag content sh]; cbn [enum_shared c02_expect_ir c02_idents] in *.
+  - apply mbind_ok in H as (en & s2 & Hen & H). apply mbind_ok in H as (vs & s3 & Hv & H).
+    unfold ret in H. injection H as <- _. rewrite flat_map_app. cbn [flat_map go_obs]. rewrite app_nil_r.
+    apply (c02_go_acr_conv uc cfg) in Hen.
+    apply (mmapM_Forall2 _ (fun v t => exists vsh en vn, v = VUnit vsh /\ t = (vcomments vsh, en ++ vn, renamed (vid vsh)) /\
+                                        CONV (original (eid sh)) = Ok en /\ CONV (original (vid vsh)) = Ok vn)) in Hv.
+    2:{ intros v s0 t s0' Hx. exact (c02_go_unit_variant_acr uc cfg _ _ _ _ _ Hx). }
+    apply (c02_go_cases_exact_core _ _ en); [exact Hplain|]. cbn [d_variants]. rewrite !map_map.
+    eapply Forall2_map_r; [exact (c02_Forall2_and_l _ _ _ _ Hv Hcv)|].
+    cbn beta. intros v t [(vsh & en' & vn & -> & -> & Ce & Cv) Hc]. cbn [variant_shared vd_name] in *.
+    rewrite Hen in Ce. injection Ce as <-. now rewrite (c02_go_conv_rw _ _ Hc Cv).
+  - apply mbind_ok in H as (sn & s2 & _ & H). apply mbind_ok in H as (cf & s3 & _ & H).
+    apply mbind_ok in H as (tf & s4 & Htf & H). apply mbind_ok in H as (short & s5 & _ & H).
+    apply mbind_ok in H as (tacr & s6 & _ & H). apply mbind_ok in H as (vs & s7 & Hv & H).
+    unfold ret in H. injection H as <- _. rewrite flat_map_app. cbn [flat_map go_obs]. rewrite app_nil_r.
+    unfold go_format_field_name in Htf. apply (c02_go_acr_conv uc cfg) in Htf.
+    apply (mmapM_Forall2 _ (fun v gv => exists tp vn, vd_name (go_obs_variant gv) = (sn ++ tp ++ lit "Variant") ++ vn /\
+                                          CONV (to_pascal_case tag) = Ok tp /\ CONV (original (vid (variant_shared v))) = Ok vn)) in Hv.
+    2:{ intros v s0 gv s0' Hx. exact (c02_go_variant_acr uc cfg _ _ _ _ _ _ _ _ Hx). }
+    match goal with |- context [?pre ++ [?h; ?x]] => set (hd := h); set (d := x) end.
+    change (flat_map go_obs anon ++ [hd; d]) with (flat_map go_obs anon ++ [hd] ++ [d]). rewrite app_assoc.
+    assert (Hplain' : forallb c02_plain (flat_map go_obs anon ++ [hd]) = true).
+    { rewrite forallb_app, Hplain. reflexivity. }
+    apply (c02_go_cases_exact_core _ _ (sn ++ tf ++ lit "Variant")); [exact Hplain'|]. subst d. cbn [d_variants gt_variants]. rewrite !map_map.
+    eapply Forall2_map_r; [exact (c02_Forall2_and_l _ _ _ _ Hv Hcv)|].
+    cbn beta. intros v gv [(tp & vn & -> & Ct & Cv) Hc]. rewrite Htf in Ct. injection Ct as <-. now rewrite (c02_go_conv_rw _ _ Hc Cv).
+Qed.
+
+(* Go, every ASCII acronym list, EXACT: the enum is good if and only if it is outside the exact class *)
+Theorem C02_back_go_exact custom e s ds s' : go_decl_of uc cfg custom (ItEnum e) s = Ok (ds, s') ->
+  dom_C02_back (c02_expect_ir e) = true ->
+  (good_C02 Go (c02_expect_ir e) (flat_map go_obs ds) = true <-> known_C02_back_go (go_uppercase_acronyms cfg) (c02_expect_ir e) = None).
+Proof.
+  intros H Hd. destruct (C02_go_core uc cfg custom e s ds s' H Hd) as [Hc _]. unfold good_C02, known_C02_back_go.
+  rewrite Hc, (C02_go_cases_exact custom e s ds s' H Hd). cbn [andb].
+  unfold c02_cls. destruct (c02_has_pair _ _); cbn [negb]; split; intros; congruence.
+Qed.
+End GOEXACT.
+
+Theorem C02_back_go_exact_b : forall uc, unicode_ok uc ->
+  forall cfg, forallb (forallb is_ascii) (go_uppercase_acronyms cfg) = true ->
+  forall custom e s ds s',
+  go_decl_of uc cfg custom (ItEnum e) s = Ok (ds, s') ->
+  dom_C02_back (c02_expect_ir e) = true ->
+  (good_C02 Go (c02_expect_ir e) (flat_map go_obs ds) = true <-> known_C02_back_go (go_uppercase_acronyms cfg) (c02_expect_ir e) = None).
+Proof. intros uc Huc cfg Ha custom e s ds s'. apply C02_back_go_exact; [exact Huc|now apply ga_ascii_list_b]. Qed.
+
+(* the spec's rewriting IS the model's on ASCII input *)
+Theorem C02_go_rewrite_is_model : forall uc, unicode_ok uc -> forall acrs name,
+  forallb (forallb is_ascii) acrs = true -> forallb is_ascii name = true ->
+  go_convert_acronyms_to_uppercase uc acrs name = Ok (c02_go_rewrite acrs name).
+Proof.
+  intros uc Huc acrs name Ha Hn. rewrite c02_go_rewrite_is_result.
+  apply (ga_convert uc Huc); [now apply ga_ascii_list_b|now apply ga_ascii_b].
+Qed.
+
+(* the two collision examples: under ["ID"] UserId / UserID collide, under ["URL"] they do not *)
+Example C02_go_exact_examples :
+  c02_go_same_name [lit "ID"] (lit "UserId") (lit "UserID") = true /\
+  c02_go_same_name [lit "URL"] (lit "UserId") (lit "UserID") = false /\
+  c02_go_rewrite [lit "id"; lit "url"] (lit "UrlIdentityId") = lit "URLIdentityID".
+Proof. vm_compute. repeat split; reflexivity. Qed.
